@@ -341,15 +341,6 @@ where
             "before apply_snapshot_from_file"
         );
 
-        // A snapshot that does not reach beyond what is already applied (late or duplicate
-        // InstallSnapshot) must not replace the state: the state machine would move backwards and
-        // the entries in between are never dispatched again.
-        let snapshot_index = final_metadata.last_included.map(|id| id.index).unwrap_or(0);
-        if snapshot_index <= self.last_applied.load(Ordering::Acquire) {
-            info!(snapshot_index, "Ignoring snapshot that is not ahead of last_applied");
-            return Ok(());
-        }
-
         // Decompress before passing to state machine
         let temp_dir = tempdir()?;
         self.decompress_to_directory(&snapshot_path, temp_dir.path()).await?;
@@ -358,11 +349,6 @@ where
         self.state_machine
             .apply_snapshot_from_file(&final_metadata, temp_dir.path().to_path_buf())
             .await?;
-
-        // The snapshot covers everything up to its index.
-        if self.last_applied.fetch_max(snapshot_index, Ordering::AcqRel) < snapshot_index {
-            let _ = self.applied_notify_tx.send(snapshot_index);
-        }
 
         info!("Snapshot stream successfully received and applied");
         Ok(())
